@@ -345,6 +345,15 @@ static Verdict run_case(const HCase &h) {
       if (L[owner].model.kind != 0) break;
       int which = c.a % 3;  // 0 detach, 1 -> image 3, 2 -> image 4
       SImg &om = L[owner].model;
+      if (c.b >= 4 && !om.has_alpha_map) {
+        // an episode that must leave no trace: the image itself serves as the alpha map of a short-lived image, which
+        // then lets go of it (explicitly, or by being destroyed); afterwards it can be given a map of its own again
+        uint32_t px[16] = {0};
+        pixman_image_t *tmp = pixman_image_create_bits(PIXMAN_a8r8g8b8, 4, 4, px, 16);
+        pixman_image_set_alpha_map(tmp, L[owner].b.im, 1, 0);
+        if (c.b == 4) pixman_image_set_alpha_map(tmp, nullptr, 0, 0);
+        pixman_image_unref(tmp);
+      }
       if (which == 0) {
         om.has_alpha_map = 0;
         amap_of[owner] = -1;
@@ -395,9 +404,14 @@ static Verdict run_case(const HCase &h) {
     }
     case H_DITHER:
       if (t != 2) break;
-      m.dither = c.a % 3;  // NONE, FAST, GOOD
+      m.dither = c.a % 6;  // NONE, FAST, GOOD, BEST, ORDERED_BAYER_8, ORDERED_BLUE_NOISE_64
       pixman_image_set_dither(im, (pixman_dither_t)m.dither);
-      note(t, c.kind, m.dither);
+      // offsets from a pool of four values per axis (also negative), so that "x unchanged, y takes x's value" and other
+      // coincidences between the two coordinates occur
+      m.dox = (c.b % 4) * 3 - 3;
+      m.doy = (c.c % 4) * 3 - 3;
+      pixman_image_set_dither_offset(im, m.dox, m.doy);
+      note(t, c.kind, m.dither * 100 + (c.b % 4) * 10 + (c.c % 4));
       break;
     case H_INDEXED:
       if (!is_bits || !is_indexed(m.bits.code())) break;
